@@ -81,6 +81,7 @@ type Link struct {
 	ptr  *Ptr
 	rid  string
 	elem types.Type
+	heap bool // backing array of a slice literal / make: a fresh allocation that outlives the activation (never restored)
 }
 
 // State is the symbolic memory at a program point.
@@ -143,6 +144,7 @@ type Obl struct {
 
 // VC is the verification context of one function under one contract.
 type VC struct {
+	pruned map[string]string // prelude text -> pruned prelude (guarded by pruneMu)
 	needed map[string]bool // symbols mentioned by this VC's context and obligations (computed once, for prelude pruning)
 	eng   *Engine
 	fn    *ssa.Function
